@@ -290,9 +290,11 @@ def run_shard(sh, rec):
             rec.count("vector_solves_with_zero_component")
             if uz is not None:
                 scale_z = eps * 64 * max(shape) ** 2 * (float(np.max(np.abs(uz))) + 1e-30)
-                if float(np.max(np.abs(uz[zc]))) > scale_z or float(np.max(np.abs(uz[(zc + 1) % 3]))) > scale_z:
-                    rec.violation("vector-solve-zero/constant-component!=0", f"component {zc} (zero rhs) max|u|={float(np.max(np.abs(uz[zc]))):.3g}, component {(zc + 1) % 3} "
-                                  f"(constant rhs) max|u|={float(np.max(np.abs(uz[(zc + 1) % 3]))):.3g} {meta}", {"meta": meta})
+                # only the ZERO component is asserted here (it must come back as zeros, not as leftovers): the constant component is a
+                # pure null-space right-hand side whose admissible leak (~0.4 n^2 eps |f|/lambda_min) is the business of the
+                # "const" rhs monitor above with its measured floor - an ad-hoc bound here alarmed on the unchanged tree (thorough tier)
+                if float(np.max(np.abs(uz[zc]))) > scale_z:
+                    rec.violation("vector-solve-zero-component!=0", f"component {zc} (zero rhs) max|u|={float(np.max(np.abs(uz[zc]))):.3g} {meta}", {"meta": meta})
             ucs = [solve(fv[c]) for c in range(3)]
             if any(x is None for x in ucs):
                 continue
